@@ -1,8 +1,1798 @@
-//! C18 — not built yet.
+//! C18 — multiparty protocols agree across parties and message orders, keep plaintexts (engine E5).
+//!
+//! E5 = explicit-state breadth-first exploration over message DELIVERY ORDERS on the real protocol
+//! objects of `src/multiparty/participant.rs`.
+//!
+//! * A *configuration* (`Cfg`) fixes protocol, scheme, explicit parameter set, number of parties,
+//!   plaintext, input level, share mode and error script.
+//! * A *state* of a configuration is (round, set of delivered (sender,receiver) messages of that
+//!   round) — a bitmask over the protocol's message pairs; a *transition* delivers one pending
+//!   message by calling the real `receive`.
+//! * The live protocol objects borrow their `Participant` and `finish()` consumes them, so a state
+//!   is materialised by REPLAYING a delivery history on fresh participants. This is deterministic:
+//!   every entropy-consuming call of a party (Participant::new, protocol creation, step2) is
+//!   preceded by `he::env(seed, h(cfg, phase, round, party))` (hook H1) and all parties share one
+//!   common random tape seed.
+//! * The observation of a materialised state is, for every party, what `finish()` does (last
+//!   round) or what `step2()` + `send_step2()` do (first round of the relinearisation protocol):
+//!   refusal (panic) or the fingerprint of the produced bytes.
 use crate::engine::*;
+use crate::he::*;
+use heathcliff::multiparty::participant::*;
+use heathcliff::multiparty::utils::{BFVShareSampler, BFVSimdShareEncoder};
+use heathcliff::util::{BlakeRNG, PRNGSeed};
+use heathcliff::*;
+use num_complex::Complex;
+use rand::{RngCore, SeedableRng};
+use serde::{Deserialize, Serialize};
+use serde_json::{json, Value};
+use std::collections::{BTreeMap, BTreeSet, HashSet};
+use std::sync::atomic::{AtomicUsize, Ordering};
+use std::sync::{Arc, Mutex};
+use std::time::Instant;
 
-pub fn describe(_rep: &Report) {}
+type C64 = Complex<f64>;
 
-pub fn sections(_cfg: &RunCfg) -> Vec<Box<dyn AnySection>> {
-    vec![]
+pub fn describe(rep: &Report) {
+    rep.set_rule(
+        "E5 explicit-state BFS over delivery orders on the real protocol objects. Configuration = protocol x scheme x explicit primes x party \
+         count x plaintext x input level x share mode x error script. State = (round, bitmask of delivered (sender,receiver) messages); \
+         transition = one real receive(). Every state is materialised by replaying its canonical (ascending) history on fresh, H1-seeded \
+         participants and every party is probed: incomplete inbox => finish()/step2() must refuse, complete inbox => must return exactly the \
+         bytes of the reference (canonical full order) run. Every lattice edge (state, pending message) is executed by two dedicated histories: \
+         canon(state)+[m] probed at once (same delivered set reached through a different history must give the same observations) and \
+         canon(state)+[m]+canon(rest)+later rounds, whose final outputs must be byte-identical to the reference at every party. The reference \
+         final outputs are judged semantically with ordinary Encryptor/Decryptor/Evaluator objects under the harness-summed secret key \
+         (component-wise sum of the NTT-form key residues modulo each prime). states = distinct (configuration, round, delivered-set) visited; \
+         transitions = lattice edges (deliveries from a distinct state) executed; traces_validated_against_impl = histories replayed and \
+         compared party by party. non-trivial = every history except the canonical complete one (non-canonical order or an incomplete inbox).",
+    );
+    rep.assume("rounds are synchronous barriers: step2() is called by all parties after every round-1 message has been delivered (the API carries no round tag; delivering a round-2 message to a party still in round 1 is caller misuse and not explored)");
+    rep.assume("each message is delivered at most once and unmodified (duplication, loss and corruption are not part of this property)");
+    rep.assume("cipher_to_shares: only party 0 receives and only parties != 0 send (asserted by the code); non-aggregating parties have no inbox, their finish() is not subject to the refusal rule");
+    rep.assume("shares_to_cipher: by design only the aggregating party 0 obtains the encryption of the sum; the other parties' outputs are recorded as observations and not judged");
+    rep.assume("shares_to_cipher/CKKS: the fresh ciphertext carries scale 1.0 and add_plain demands equal scales, so the harness's share encoder labels its scale-2^k plaintexts with scale 1.0 and relabels the result (the only way to reach the is_ckks branch)");
+    rep.assume("CKKS outputs are compared within an a-priori worst-case bound 2*N*(coefficient noise bound + n_encodings/2)/scale; BFV/BGV outputs exactly; parameter sets keep >= 5 bits of head-room under the same worst-case calculus (special prime is the largest prime)");
+    rep.assume("input ciphertexts are produced by an ordinary KeyGenerator::from_sk(sum of secret keys) public key, so a defect of the public-key protocol cannot mask or fake a defect of the other protocols");
+}
+
+// ---------------------------------------------------------------------------------------------
+// configuration
+// ---------------------------------------------------------------------------------------------
+
+#[derive(Serialize, Deserialize, Clone, Copy, Debug, PartialEq, Eq, Hash, PartialOrd, Ord)]
+pub enum Proto {
+    PublicKey,
+    RelinKeys,
+    RevealSk,
+    Decrypt,
+    KeySwitch,
+    PubKeySwitch,
+    CipherToShares,
+    SharesToCipher,
+}
+
+impl Proto {
+    pub fn all() -> [Proto; 8] {
+        [Proto::PublicKey, Proto::RelinKeys, Proto::RevealSk, Proto::Decrypt, Proto::KeySwitch, Proto::PubKeySwitch, Proto::CipherToShares, Proto::SharesToCipher]
+    }
+    fn rounds(self) -> usize {
+        if self == Proto::RelinKeys {
+            2
+        } else {
+            1
+        }
+    }
+    fn has_cipher_input(self) -> bool {
+        matches!(self, Proto::Decrypt | Proto::KeySwitch | Proto::PubKeySwitch | Proto::CipherToShares)
+    }
+    fn uses_message(self) -> bool {
+        self.has_cipher_input() || self == Proto::SharesToCipher
+    }
+    /// (sender, receiver) pairs of one round, in canonical order
+    fn edges(self, n: usize) -> Vec<(usize, usize)> {
+        let mut v = vec![];
+        for s in 0..n {
+            for r in 0..n {
+                if s == r {
+                    continue;
+                }
+                if self == Proto::CipherToShares && (r != 0 || s == 0) {
+                    continue;
+                }
+                v.push((s, r));
+            }
+        }
+        v
+    }
+    fn name(self) -> &'static str {
+        match self {
+            Proto::PublicKey => "public_key",
+            Proto::RelinKeys => "relin_keys",
+            Proto::RevealSk => "reveal_sk",
+            Proto::Decrypt => "decrypt",
+            Proto::KeySwitch => "key_switch",
+            Proto::PubKeySwitch => "public_key_switch",
+            Proto::CipherToShares => "cipher_to_shares",
+            Proto::SharesToCipher => "shares_to_cipher",
+        }
+    }
+}
+
+#[derive(Serialize, Deserialize, Clone, Copy, Debug, PartialEq, Eq, Hash)]
+pub enum ShareMode {
+    /// the library's BFVShareSampler (BFV/BGV) / a grid sampler driven by the protocol's own generator (CKKS)
+    Sampler,
+    /// every non-aggregating party's share is the all-zero vector
+    FixedZero,
+    /// every non-aggregating party's share is all t-1 (a value the library's sampler never produces)
+    FixedMax,
+}
+
+#[derive(Serialize, Deserialize, Clone, Debug, PartialEq, Eq, Hash)]
+pub struct Cfg {
+    pub proto: Proto,
+    pub spec: ParamSpec,
+    pub parties: usize,
+    /// BFV/BGV: slot values (mod t), padded with zeros to N slots. CKKS: 2 entries per slot, value = (re + i*im)/4.
+    pub msg: Vec<i64>,
+    /// number of mod_switch_to_next applied to the input ciphertext
+    pub level: usize,
+    pub shares: ShareMode,
+    /// script of the error samples (hook H2)
+    pub err: Noise,
+    /// script of the ternary samples (secret keys, u); AllMax makes every party's key the all-ones polynomial
+    #[serde(default = "noise_real")]
+    pub tern: Noise,
+}
+
+fn noise_real() -> Noise {
+    Noise::Real
+}
+
+impl Cfg {
+    fn tag(&self) -> u64 {
+        h64(&serde_json::to_string(self).unwrap_or_default())
+    }
+    fn shape(&self) -> String {
+        format!("{}:{:?}", self.proto.name(), self.spec.scheme)
+    }
+    fn is_ckks(&self) -> bool {
+        self.spec.scheme == Scheme::CKKS
+    }
+    /// the one combination whose creation is refused by the library as documented in its own checks
+    fn expected_refusal(&self) -> bool {
+        self.proto == Proto::SharesToCipher && self.spec.scheme == Scheme::BGV
+    }
+}
+
+// ---------------------------------------------------------------------------------------------
+// share samplers / encoders supplied by the harness (the traits are the library's extension point)
+// ---------------------------------------------------------------------------------------------
+
+struct FixedSampler {
+    v: Vec<u64>,
+}
+impl ShareSampler for FixedSampler {
+    type Share = Vec<u64>;
+    fn sample(&self, _prng: &mut BlakeRNG) -> Vec<u64> {
+        self.v.clone()
+    }
+}
+
+/// complex shares on the grid {-4, -3.75, .., 4}^2, driven by the generator the protocol hands in
+struct CkSampler {
+    slots: usize,
+}
+impl ShareSampler for CkSampler {
+    type Share = Vec<C64>;
+    fn sample(&self, prng: &mut BlakeRNG) -> Vec<C64> {
+        (0..self.slots)
+            .map(|_| {
+                let a = (prng.next_u32() % 33) as f64 - 16.0;
+                let b = (prng.next_u32() % 33) as f64 - 16.0;
+                C64::new(a / 4.0, b / 4.0)
+            })
+            .collect()
+    }
+}
+
+struct CkEnc {
+    enc: CKKSEncoder,
+    parms_id: ParmsID,
+    scale: f64,
+    /// scale written on the produced plaintext instead of the real one (shares_to_cipher)
+    label: Option<f64>,
+    slots: usize,
+}
+impl ShareEncoder for CkEnc {
+    type Share = Vec<C64>;
+    fn encode(&self, share: &Vec<C64>) -> Plaintext {
+        let mut p = self.enc.encode_c64_array_new(share, Some(self.parms_id), self.scale);
+        if let Some(l) = self.label {
+            p.set_scale(l);
+        }
+        p
+    }
+    fn decode(&self, plaintext: &Plaintext) -> Vec<C64> {
+        let mut p = plaintext.clone();
+        p.set_scale(self.scale);
+        let mut v = self.enc.decode_new(&p);
+        v.truncate(self.slots);
+        v
+    }
+}
+
+// ---------------------------------------------------------------------------------------------
+// fixture: everything of a configuration that does not depend on the delivery history
+// ---------------------------------------------------------------------------------------------
+
+struct Fixture {
+    seed: u64,
+    tag: u64,
+    ctx: Arc<HeContext>,
+    n: usize,
+    nslots: usize,
+    t: u64,
+    edges: Vec<(usize, usize)>,
+    key_moduli: Vec<u64>,
+    err: Noise,
+    tern: Noise,
+    /// secret keys of the parties as first created (every replay must reproduce them)
+    sk_parts: Vec<Vec<u64>>,
+    sk_sum: SecretKey,
+    pk_sum: PublicKey,
+    benc: Option<BatchEncoder>,
+    bshare: Option<BFVSimdShareEncoder>,
+    cenc: Option<CKKSEncoder>,
+    scale: f64,
+    msg_u: Vec<u64>,
+    msg_c: Vec<C64>,
+    cipher: Option<Ciphertext>,
+    cipher_parms: ParmsID,
+    new_sks: Vec<SecretKey>,
+    new_sk_sum: Option<SecretKey>,
+    target: Option<(PublicKey, SecretKey)>,
+    shares_u: Vec<Vec<u64>>,
+    shares_c: Vec<Vec<C64>>,
+    /// largest |error|/tolerance seen in a CKKS comparison that passed (exposes a vacuous tolerance)
+    ckks_ratio: std::cell::Cell<f64>,
+    /// smallest invariant noise budget (bits) of a judged BFV/BGV output ciphertext
+    min_budget: std::cell::Cell<i64>,
+}
+
+fn sum_keys(parts: &[Vec<u64>], moduli: &[u64], n: usize) -> Vec<u64> {
+    let mut out = vec![0u64; moduli.len() * n];
+    for p in parts {
+        for (j, &q) in moduli.iter().enumerate() {
+            for i in 0..n {
+                let k = j * n + i;
+                out[k] = ((out[k] as u128 + p[k] as u128) % q as u128) as u64;
+            }
+        }
+    }
+    out
+}
+
+impl Fixture {
+    fn reseed(&self, phase: &str, round: usize, party: usize) {
+        env(self.seed, h64(&(self.tag, phase, round, party)), self.tern.mode(), self.err.mode());
+    }
+    fn common_seed(&self) -> PRNGSeed {
+        let mut s = [0u8; 64];
+        for k in 0..8 {
+            s[k * 8..k * 8 + 8].copy_from_slice(&h64(&(self.seed, self.tag, "common-tape", k)).to_le_bytes());
+        }
+        PRNGSeed(s)
+    }
+    fn new_party(&self, p: usize) -> Participant {
+        self.reseed("party", 0, p);
+        Participant::new(self.n, p, self.ctx.clone(), BlakeRNG::from_seed(self.common_seed()))
+    }
+    fn ck_enc(&self, label: Option<f64>) -> CkEnc {
+        CkEnc { enc: CKKSEncoder::new(self.ctx.clone()), parms_id: self.cipher_parms, scale: self.scale, label, slots: self.nslots }
+    }
+    fn plain_of(&self, cfg: &Cfg, mu: &[u64], mc: &[C64]) -> Plaintext {
+        if cfg.is_ckks() {
+            self.cenc.as_ref().unwrap().encode_c64_array_new(mc, None, self.scale)
+        } else {
+            self.benc.as_ref().unwrap().encode_new(mu)
+        }
+    }
+
+    fn build(cfg: &Cfg, seed: u64) -> Result<Fixture, String> {
+        let ctx = cfg.spec.context();
+        if !ctx.parameters_set() {
+            return Err("parameters not set".into());
+        }
+        let n = cfg.parties;
+        let deg = cfg.spec.n;
+        let ckks = cfg.is_ckks();
+        let nslots = if ckks { deg / 2 } else { deg };
+        let first = ctx.first_context_data().unwrap();
+        // level of the input
+        let mut cd = first.clone();
+        for _ in 0..cfg.level {
+            cd = cd.next_context_data().ok_or_else(|| "level beyond the chain".to_string())?;
+        }
+        let cipher_parms = *cd.parms_id();
+        let low_bits: u32 = cd.parms().coeff_modulus().iter().map(|m| 64 - m.value().leading_zeros()).sum();
+        let first_bits: u32 = first.parms().coeff_modulus().iter().map(|m| 64 - m.value().leading_zeros()).sum();
+        // CKKS scale: products (relinearisation check) must fit the first level, plain values the lowest level used
+        let scale_bits = if cfg.proto == Proto::RelinKeys { ((first_bits as i64 - 7) / 2).min(30) } else { (low_bits as i64 - 8).min(30) };
+        let scale = (2.0f64).powi(scale_bits as i32);
+        let t = cfg.spec.t;
+        let mut msg_u = vec![0u64; nslots];
+        let mut msg_c = vec![C64::new(0.0, 0.0); nslots];
+        if ckks {
+            for k in 0..nslots {
+                let re = cfg.msg.get(2 * k).copied().unwrap_or(0) as f64 / 4.0;
+                let im = cfg.msg.get(2 * k + 1).copied().unwrap_or(0) as f64 / 4.0;
+                msg_c[k] = C64::new(re, im);
+            }
+        } else {
+            for k in 0..nslots {
+                msg_u[k] = cfg.msg.get(k).copied().unwrap_or(0).rem_euclid(t as i64) as u64;
+            }
+        }
+        let key_moduli: Vec<u64> = ctx.key_context_data().unwrap().parms().coeff_modulus().iter().map(|m| m.value()).collect();
+        let mut fx = Fixture {
+            seed,
+            tag: cfg.tag(),
+            ctx: ctx.clone(),
+            n,
+            nslots,
+            t,
+            edges: cfg.proto.edges(n),
+            key_moduli,
+            err: cfg.err,
+            tern: cfg.tern,
+            sk_parts: vec![],
+            sk_sum: SecretKey::default(),
+            pk_sum: PublicKey::default(),
+            benc: if ckks { None } else { Some(BatchEncoder::new(ctx.clone())) },
+            bshare: if ckks { None } else { Some(BFVSimdShareEncoder::new(ctx.clone())) },
+            cenc: if ckks { Some(CKKSEncoder::new(ctx.clone())) } else { None },
+            scale,
+            msg_u,
+            msg_c,
+            cipher: None,
+            cipher_parms,
+            new_sks: vec![],
+            new_sk_sum: None,
+            target: None,
+            shares_u: vec![],
+            shares_c: vec![],
+            ckks_ratio: std::cell::Cell::new(0.0),
+            min_budget: std::cell::Cell::new(i64::MAX),
+        };
+        // the parties' secret keys and their sum
+        let mut proto_sk = None;
+        for p in 0..n {
+            let party = fx.new_party(p);
+            fx.sk_parts.push(party.secret_key().data().clone());
+            if proto_sk.is_none() {
+                proto_sk = Some(party.secret_key().clone());
+            }
+        }
+        let mut sk_sum = proto_sk.unwrap();
+        let summed = sum_keys(&fx.sk_parts, &fx.key_moduli, deg);
+        sk_sum.data_mut().copy_from_slice(&summed);
+        fx.sk_sum = sk_sum.clone();
+        fx.reseed("fx-pk", 0, 0);
+        fx.pk_sum = KeyGenerator::from_sk(ctx.clone(), sk_sum.clone()).create_public_key(false);
+        if cfg.proto.has_cipher_input() {
+            fx.reseed("fx-ct", 0, 0);
+            let enc = Encryptor::new(ctx.clone()).set_public_key(fx.pk_sum.clone());
+            let mut ct = enc.encrypt_new(&fx.plain_of(cfg, &fx.msg_u, &fx.msg_c));
+            let ev = Evaluator::new(ctx.clone());
+            for _ in 0..cfg.level {
+                ev.mod_switch_to_next_inplace(&mut ct);
+            }
+            fx.cipher = Some(ct);
+        }
+        if cfg.proto == Proto::KeySwitch {
+            let mut parts = vec![];
+            for p in 0..n {
+                fx.reseed("fx-newsk", 0, p);
+                let sk = KeyGenerator::new(ctx.clone()).secret_key().clone();
+                parts.push(sk.data().clone());
+                fx.new_sks.push(sk);
+            }
+            let mut s = fx.new_sks[0].clone();
+            s.data_mut().copy_from_slice(&sum_keys(&parts, &fx.key_moduli, deg));
+            fx.new_sk_sum = Some(s);
+        }
+        if cfg.proto == Proto::PubKeySwitch {
+            fx.reseed("fx-target", 0, 0);
+            let kg = KeyGenerator::new(ctx.clone());
+            fx.target = Some((kg.create_public_key(false), kg.secret_key().clone()));
+        }
+        if cfg.proto == Proto::SharesToCipher {
+            for p in 0..n {
+                if ckks {
+                    fx.shares_c.push((0..nslots).map(|k| fx.msg_c[(k + p) % nslots] * C64::new(1.0, 0.0) + C64::new(p as f64 / 4.0, -(p as f64) / 2.0)).collect());
+                } else {
+                    fx.shares_u.push((0..nslots).map(|k| (fx.msg_u[(k + p) % nslots] + p as u64) % t).collect());
+                }
+            }
+        }
+        Ok(fx)
+    }
+}
+
+// ---------------------------------------------------------------------------------------------
+// live protocol objects
+// ---------------------------------------------------------------------------------------------
+
+enum Obj<'a> {
+    Pk(PublicKeyGenerationProtocol<'a>),
+    Rlk(RelinKeysGenerationProtocol<'a>, usize),
+    Sk(SecretKeyRevelationProtocol<'a>),
+    Dec(DecryptionProtocol<'a>),
+    Ks(KeySwitchProtocol<'a>),
+    Pks(PublicKeySwitchProtocol<'a>),
+    C2sU(CipherToSharesProtocol<'a, Vec<u64>>),
+    C2sC(CipherToSharesProtocol<'a, Vec<C64>>),
+}
+
+#[derive(Clone)]
+enum Out {
+    Pk(PublicKey),
+    Rlk(RelinKeys),
+    Sk(SecretKey),
+    Pt(Plaintext),
+    Ct(Ciphertext),
+    ShU(Vec<u64>),
+    ShC(Vec<C64>),
+}
+
+fn fp_kswitch(k: &KSwitchKeys) -> u64 {
+    let mut h = h64(&(k.parms_id(), k.data().len()));
+    for (i, v) in k.data().iter().enumerate() {
+        for pk in v {
+            h = h64(&(h, i, ct_fingerprint(pk.as_ciphertext())));
+        }
+    }
+    h
+}
+
+impl Out {
+    fn fp(&self) -> u64 {
+        match self {
+            Out::Pk(p) => h64(&(1u8, ct_fingerprint(p.as_ciphertext()))),
+            Out::Rlk(r) => h64(&(2u8, fp_kswitch(r.as_kswitch_keys()))),
+            Out::Sk(s) => h64(&(3u8, s.data().as_slice(), s.parms_id())),
+            Out::Pt(p) => h64(&(4u8, pt_fingerprint(p))),
+            Out::Ct(c) => h64(&(5u8, ct_fingerprint(c))),
+            Out::ShU(v) => h64(&(6u8, v.as_slice())),
+            Out::ShC(v) => h64(&(7u8, v.iter().map(|z| (z.re.to_bits(), z.im.to_bits())).collect::<Vec<_>>())),
+        }
+    }
+}
+
+fn create<'a>(cfg: &Cfg, fx: &Fixture, p: usize, party: &'a mut Participant) -> Obj<'a> {
+    match cfg.proto {
+        Proto::PublicKey => Obj::Pk(party.generate_public_key()),
+        Proto::RelinKeys => Obj::Rlk(party.generate_relin_keys(), 0),
+        Proto::RevealSk => Obj::Sk(party.reveal_secret_key()),
+        Proto::Decrypt => Obj::Dec(party.decrypt(fx.cipher.as_ref().unwrap())),
+        Proto::KeySwitch => Obj::Ks(party.key_switch(fx.cipher.as_ref().unwrap(), &fx.new_sks[p])),
+        Proto::PubKeySwitch => Obj::Pks(party.public_key_switch(fx.cipher.as_ref().unwrap(), &fx.target.as_ref().unwrap().0)),
+        Proto::CipherToShares => {
+            let ct = fx.cipher.as_ref().unwrap().clone();
+            if cfg.is_ckks() {
+                Obj::C2sC(party.cipher_to_shares(ct, &CkSampler { slots: fx.nslots }, &fx.ck_enc(None)))
+            } else {
+                let enc = fx.bshare.as_ref().unwrap();
+                match cfg.shares {
+                    ShareMode::Sampler => Obj::C2sU(party.cipher_to_shares(ct, &BFVShareSampler::new(fx.ctx.clone()), enc)),
+                    ShareMode::FixedZero => Obj::C2sU(party.cipher_to_shares(ct, &FixedSampler { v: vec![0; fx.nslots] }, enc)),
+                    ShareMode::FixedMax => Obj::C2sU(party.cipher_to_shares(ct, &FixedSampler { v: vec![fx.t - 1; fx.nslots] }, enc)),
+                }
+            }
+        }
+        Proto::SharesToCipher => {
+            if cfg.is_ckks() {
+                Obj::Ks(party.shares_to_cipher(&fx.shares_c[p], &fx.ck_enc(Some(1.0))))
+            } else {
+                Obj::Ks(party.shares_to_cipher(&fx.shares_u[p], fx.bshare.as_ref().unwrap()))
+            }
+        }
+    }
+}
+
+impl<'a> Obj<'a> {
+    fn send(&self, v: &mut Vec<u8>) -> std::io::Result<()> {
+        match self {
+            Obj::Pk(p) => p.send(v),
+            Obj::Rlk(p, 0) => p.send_step1(v),
+            Obj::Rlk(p, _) => p.send_step2(v),
+            Obj::Sk(p) => p.send(v),
+            Obj::Dec(p) => p.send(v),
+            Obj::Ks(p) => p.send(v),
+            Obj::Pks(p) => p.send(v),
+            Obj::C2sU(p) => p.send(v),
+            Obj::C2sC(p) => p.send(v),
+        }
+    }
+    /// returns the number of bytes of the message left unread
+    fn receive(&mut self, s: usize, bytes: &[u8]) -> std::io::Result<usize> {
+        let mut b = bytes;
+        match self {
+            Obj::Pk(p) => p.receive(s, &mut b),
+            Obj::Rlk(p, 0) => p.receive_step1(s, &mut b),
+            Obj::Rlk(p, _) => p.receive_step2(s, &mut b),
+            Obj::Sk(p) => p.receive(s, &mut b),
+            Obj::Dec(p) => p.receive(s, &mut b),
+            Obj::Ks(p) => p.receive(s, &mut b),
+            Obj::Pks(p) => p.receive(s, &mut b),
+            Obj::C2sU(p) => p.receive(s, &mut b),
+            Obj::C2sC(p) => p.receive(s, &mut b),
+        }?;
+        Ok(b.len())
+    }
+    fn advance(&mut self) {
+        if let Obj::Rlk(p, r) = self {
+            p.step2();
+            *r += 1;
+        }
+    }
+    fn finish(self, fx: &Fixture) -> Out {
+        match self {
+            Obj::Pk(p) => Out::Pk(p.finish()),
+            Obj::Rlk(p, _) => Out::Rlk(p.finish()),
+            Obj::Sk(p) => Out::Sk(p.finish()),
+            Obj::Dec(p) => Out::Pt(p.finish()),
+            Obj::Ks(p) => Out::Ct(p.finish()),
+            Obj::Pks(p) => Out::Ct(p.finish()),
+            Obj::C2sU(p) => Out::ShU(p.finish(fx.bshare.as_ref().unwrap())),
+            Obj::C2sC(p) => Out::ShC(p.finish(&fx.ck_enc(None))),
+        }
+    }
+}
+
+// ---------------------------------------------------------------------------------------------
+// replaying one history
+// ---------------------------------------------------------------------------------------------
+
+struct RunOut {
+    /// per party: fingerprint of what the probe returned, or the panic message
+    obs: Vec<Result<u64, String>>,
+    outs: Vec<Option<Out>>,
+    receives: u64,
+    leftover: usize,
+}
+
+enum RunErr {
+    /// protocol creation refused with an [Invalid argument] panic
+    Refused(String),
+    Fail(Fail),
+}
+
+fn mkfail(cfg: &Cfg, what: &str, expected: impl Into<String>, observed: impl Into<String>) -> Fail {
+    Fail { key: format!("{}:{}", cfg.shape(), what), expected: expected.into(), observed: observed.into() }
+}
+
+/// `hist[r]` = edge indices delivered in round r, in order; all rounds but the last listed one must be complete.
+/// After the history every party is probed (finish in the last protocol round, step2+send otherwise).
+fn run(cfg: &Cfg, fx: &Fixture, hist: &[Vec<usize>]) -> Result<RunOut, RunErr> {
+    let n = cfg.parties;
+    let mut parties: Vec<Participant> = Vec::with_capacity(n);
+    for p in 0..n {
+        match guard(|| fx.new_party(p)) {
+            Ok(pt) => parties.push(pt),
+            Err(e) => return Err(RunErr::Fail(mkfail(cfg, &format!("participant-new:panic:{}", panic_class(&e)), "Participant::new succeeds", e))),
+        }
+        if parties[p].secret_key().data() != &fx.sk_parts[p] {
+            return Err(RunErr::Fail(mkfail(cfg, "harness:replay-not-deterministic", "a replayed participant has the secret key of the first creation", format!("party {p} differs"))));
+        }
+    }
+    let mut objs: Vec<Option<Obj>> = Vec::with_capacity(n);
+    for (p, party) in parties.iter_mut().enumerate() {
+        fx.reseed("proto", 0, p);
+        match guard(|| create(cfg, fx, p, party)) {
+            Ok(o) => objs.push(Some(o)),
+            Err(e) => {
+                if e.contains("[Invalid argument]") {
+                    return Err(RunErr::Refused(e));
+                }
+                return Err(RunErr::Fail(mkfail(cfg, &format!("create:panic:{}", panic_class(&e)), format!("party {p} can start the protocol"), e)));
+            }
+        }
+    }
+    let senders: BTreeSet<usize> = fx.edges.iter().map(|e| e.0).collect();
+    let last_round = cfg.proto.rounds() - 1;
+    let mut receives = 0u64;
+    let mut leftover = 0usize;
+    for (r, deliveries) in hist.iter().enumerate() {
+        let mut msgs: Vec<Option<Vec<u8>>> = vec![None; n];
+        for &s in &senders {
+            let mut v = vec![];
+            match guard(|| objs[s].as_ref().unwrap().send(&mut v)) {
+                Ok(Ok(())) => {}
+                Ok(Err(e)) => return Err(RunErr::Fail(mkfail(cfg, "send:io-error", format!("party {s} can serialise its round-{r} message"), e.to_string()))),
+                Err(e) => return Err(RunErr::Fail(mkfail(cfg, &format!("send:panic:{}", panic_class(&e)), format!("party {s} can serialise its round-{r} message"), e))),
+            }
+            msgs[s] = Some(v);
+        }
+        for &e in deliveries {
+            let (s, rcv) = fx.edges[e];
+            let bytes = msgs[s].as_ref().unwrap();
+            match guard(|| objs[rcv].as_mut().unwrap().receive(s, bytes)) {
+                Ok(Ok(left)) => leftover = leftover.max(left),
+                Ok(Err(er)) => return Err(RunErr::Fail(mkfail(cfg, "receive:io-error", format!("party {rcv} accepts the round-{r} message of party {s}"), er.to_string()))),
+                Err(er) => return Err(RunErr::Fail(mkfail(cfg, &format!("receive:panic:{}", panic_class(&er)), format!("party {rcv} accepts the round-{r} message of party {s}"), er))),
+            }
+            receives += 1;
+        }
+        if r + 1 < hist.len() {
+            for p in 0..n {
+                fx.reseed("advance", r, p);
+                if let Err(e) = guard(|| objs[p].as_mut().unwrap().advance()) {
+                    return Err(RunErr::Fail(mkfail(cfg, &format!("step2:complete-inbox-refused:{}", panic_class(&e)), format!("party {p} with a complete round-{r} inbox can start round {}", r + 1), e)));
+                }
+            }
+        }
+    }
+    // probe
+    let r = hist.len() - 1;
+    let mut obs = vec![];
+    let mut outs = vec![];
+    for p in 0..n {
+        let o = objs[p].take().unwrap();
+        if r == last_round {
+            match guard(|| o.finish(fx)) {
+                Ok(out) => {
+                    obs.push(Ok(out.fp()));
+                    outs.push(Some(out));
+                }
+                Err(e) => {
+                    obs.push(Err(e));
+                    outs.push(None);
+                }
+            }
+        } else {
+            fx.reseed("advance", r, p);
+            let mut o = o;
+            let res = guard(|| {
+                o.advance();
+                let mut v = vec![];
+                o.send(&mut v).map(|_| v)
+            });
+            match res {
+                Ok(Ok(v)) => obs.push(Ok(h64(&v))),
+                Ok(Err(e)) => obs.push(Err(format!("io error: {e}"))),
+                Err(e) => obs.push(Err(e)),
+            }
+            outs.push(None);
+        }
+    }
+    Ok(RunOut { obs, outs, receives, leftover })
+}
+
+// ---------------------------------------------------------------------------------------------
+// histories
+// ---------------------------------------------------------------------------------------------
+
+fn bits(mask: u64) -> Vec<usize> {
+    (0..64).filter(|i| mask >> i & 1 == 1).collect()
+}
+
+fn mask_of(v: &[usize]) -> u64 {
+    v.iter().fold(0u64, |m, &e| m | 1u64 << e)
+}
+
+fn hist_json(fx_edges: &[(usize, usize)], hist: &[Vec<usize>]) -> Value {
+    json!(hist.iter().map(|r| r.iter().map(|&e| vec![fx_edges[e].0, fx_edges[e].1]).collect::<Vec<_>>()).collect::<Vec<_>>())
+}
+
+fn case_json(cfg: &Cfg, edges: &[(usize, usize)], hist: &[Vec<usize>]) -> Value {
+    json!({"cfg": cfg, "hist": hist_json(edges, hist)})
+}
+
+/// reference observations: refs[r][p] = fingerprint party p shows when probed after the canonical complete rounds 0..=r
+struct Refs {
+    obs: Vec<Vec<u64>>,
+    outs: Vec<Out>,
+}
+
+fn canonical(fx: &Fixture, rounds: usize) -> Vec<Vec<usize>> {
+    (0..rounds).map(|_| (0..fx.edges.len()).collect()).collect()
+}
+
+enum RefErr {
+    Skip(String),
+    Fail(Value, Fail),
+}
+
+fn reference(cfg: &Cfg, fx: &Fixture) -> Result<Refs, RefErr> {
+    let mut obs = vec![];
+    let mut outs = vec![];
+    for r in 0..cfg.proto.rounds() {
+        let hist = canonical(fx, r + 1);
+        let cj = case_json(cfg, &fx.edges, &hist);
+        match run(cfg, fx, &hist) {
+            Err(RunErr::Refused(e)) => {
+                if cfg.expected_refusal() {
+                    return Err(RefErr::Skip(format!("{} refuses the scheme: {}", cfg.shape(), panic_class(&e))));
+                }
+                return Err(RefErr::Fail(cj, mkfail(cfg, &format!("create:refused:{}", panic_class(&e)), "the protocol starts on a valid input of a scheme its code handles", e)));
+            }
+            Err(RunErr::Fail(f)) => return Err(RefErr::Fail(cj, f)),
+            Ok(ro) => {
+                let mut row = vec![];
+                for (p, o) in ro.obs.iter().enumerate() {
+                    match o {
+                        Ok(h) => row.push(*h),
+                        Err(e) => {
+                            let op = if r + 1 == cfg.proto.rounds() { "finish" } else { "step2" };
+                            return Err(RefErr::Fail(
+                                cj,
+                                mkfail(cfg, &format!("{op}:complete-inbox-refused:{}", panic_class(e)), format!("party {p} completes after receiving every other party's message"), e.clone()),
+                            ));
+                        }
+                    }
+                }
+                obs.push(row);
+                if r + 1 == cfg.proto.rounds() {
+                    outs = ro.outs.into_iter().map(|o| o.unwrap()).collect();
+                }
+            }
+        }
+    }
+    Ok(Refs { obs, outs })
+}
+
+fn inbox_complete(fx: &Fixture, p: usize, mask: u64) -> bool {
+    fx.edges.iter().enumerate().all(|(i, e)| e.1 != p || mask >> i & 1 == 1)
+}
+
+struct Judged {
+    fails: Vec<Fail>,
+    /// class of the observation (who refused / who completed)
+    class: u64,
+    receives: u64,
+    refusal_classes: Vec<String>,
+    leftover: usize,
+}
+
+/// Replay `hist` and compare every party's probe with the expectation derived from the reference.
+fn judge_history(cfg: &Cfg, fx: &Fixture, refs: &Refs, hist: &[Vec<usize>]) -> Judged {
+    let r = hist.len() - 1;
+    let last = r + 1 == cfg.proto.rounds();
+    let mask = mask_of(&hist[r]);
+    let full = mask == mask_of(&(0..fx.edges.len()).collect::<Vec<_>>());
+    let op = if last { "finish" } else { "step2" };
+    let mut fails = vec![];
+    let mut refusal_classes = vec![];
+    match run(cfg, fx, hist) {
+        Err(RunErr::Refused(e)) => {
+            fails.push(mkfail(cfg, "create:refusal-depends-on-history", "creation does not depend on the delivery history", e));
+            Judged { fails, class: 0, receives: 0, refusal_classes, leftover: 0 }
+        }
+        Err(RunErr::Fail(f)) => Judged { fails: vec![f], class: 1, receives: 0, refusal_classes, leftover: 0 },
+        Ok(ro) => {
+            let mut pattern = vec![];
+            for p in 0..cfg.parties {
+                let complete = inbox_complete(fx, p, mask);
+                match (&ro.obs[p], complete) {
+                    (Ok(h), true) => {
+                        pattern.push(1u8);
+                        if *h != refs.obs[r][p] {
+                            let what = if full && last { "final-output-depends-on-delivery-order" } else { "state-not-canonical:output-depends-on-history" };
+                            fails.push(mkfail(
+                                cfg,
+                                what,
+                                format!("party {p} (inbox complete) returns the bytes of the canonical-order run"),
+                                format!("different bytes after history {}", hist_json(&fx.edges, hist)),
+                            ));
+                        }
+                    }
+                    (Err(e), true) => {
+                        pattern.push(2);
+                        fails.push(mkfail(cfg, &format!("{op}:complete-inbox-refused:{}", panic_class(e)), format!("party {p} has received every message addressed to it and completes"), format!("{e}; history {}", hist_json(&fx.edges, hist))));
+                    }
+                    (Ok(_), false) => {
+                        pattern.push(3);
+                        fails.push(mkfail(
+                            cfg,
+                            &format!("{op}:incomplete-inbox-accepted"),
+                            format!("party {p} has not received every other party's message and refuses"),
+                            format!("returned a result after history {}", hist_json(&fx.edges, hist)),
+                        ));
+                    }
+                    (Err(e), false) => {
+                        pattern.push(0);
+                        refusal_classes.push(panic_class(e));
+                    }
+                }
+            }
+            Judged { fails, class: h64(&(cfg.proto, cfg.spec.scheme, r, pattern)), receives: ro.receives, refusal_classes, leftover: ro.leftover }
+        }
+    }
+}
+
+// ---------------------------------------------------------------------------------------------
+// semantic oracles on the reference outputs
+// ---------------------------------------------------------------------------------------------
+
+const E_MAX: f64 = 21.0;
+
+struct Sem {
+    fails: Vec<Fail>,
+    observations: Vec<String>,
+    steps: u64,
+}
+
+fn alphabet_u(t: u64, nslots: usize) -> Vec<Vec<u64>> {
+    let dense: Vec<u64> = [1u64, 3, 5, 7, t - 1, 0, t / 2 + 1, 12].iter().cycle().take(nslots).map(|v| v % t).collect();
+    vec![vec![0; nslots], vec![t - 1; nslots], dense]
+}
+
+fn alphabet_c(nslots: usize) -> Vec<Vec<C64>> {
+    let dense: Vec<C64> = [C64::new(1.5, -2.0), C64::new(0.25, 3.0), C64::new(-4.0, 0.0), C64::new(0.0, 0.75)].iter().cycle().take(nslots).cloned().collect();
+    vec![vec![C64::new(0.0, 0.0); nslots], vec![C64::new(-4.0, 4.0); nslots], dense]
+}
+
+fn msgs_for(scheme: Scheme, t: u64, deg: usize) -> Vec<Vec<i64>> {
+    if scheme == Scheme::CKKS {
+        alphabet_c(deg / 2).into_iter().map(|v| v.iter().flat_map(|z| [(z.re * 4.0) as i64, (z.im * 4.0) as i64]).collect()).collect()
+    } else {
+        alphabet_u(t, deg).into_iter().map(|v| v.iter().map(|&x| x as i64).collect()).collect()
+    }
+}
+
+/// Ok(largest |difference| / tolerance)
+fn close(a: &[C64], b: &[C64], tol: f64) -> Result<f64, String> {
+    let mut worst = 0.0f64;
+    for (k, (x, y)) in a.iter().zip(b).enumerate() {
+        let d = (x - y).norm();
+        if !(d <= tol) {
+            return Err(format!("slot {k}: {x} vs expected {y} (|diff| {d:e} > tol {tol:e})"));
+        }
+        worst = worst.max(d / tol);
+    }
+    if a.len() < b.len() {
+        return Err(format!("only {} slots", a.len()));
+    }
+    Ok(worst)
+}
+
+impl Fixture {
+    fn fresh_bound(&self, level: usize) -> f64 {
+        // public-key encryption at the key level, division by the special prime, `level` further switches
+        let round = (1.0 + (self.ctx.first_context_data().unwrap().parms().poly_modulus_degree() * self.n) as f64) / 2.0;
+        round * (1.0 + level as f64) + 2.0
+    }
+    fn tol(&self, coeff_bound: f64, encodings: f64, scale: f64) -> f64 {
+        let deg = self.ctx.first_context_data().unwrap().parms().poly_modulus_degree() as f64;
+        2.0 * deg * (coeff_bound + encodings / 2.0) / scale
+    }
+    fn decode_u(&self, p: &Plaintext) -> Vec<u64> {
+        self.benc.as_ref().unwrap().decode_new(p)
+    }
+    fn decode_c(&self, p: &Plaintext) -> Vec<C64> {
+        let mut v = self.cenc.as_ref().unwrap().decode_new(p);
+        v.truncate(self.nslots);
+        v
+    }
+    fn note_budget(&self, cfg: &Cfg, dec: &Decryptor, ct: &Ciphertext) {
+        if !cfg.is_ckks() {
+            if let Ok(b) = guard(|| dec.invariant_noise_budget(ct)) {
+                self.min_budget.set(self.min_budget.get().min(b as i64));
+            }
+        }
+    }
+    /// compare a decrypted plaintext with the expected message
+    fn cmp_plain(&self, cfg: &Cfg, p: &Plaintext, mu: &[u64], mc: &[C64], tol: f64) -> Result<(), String> {
+        if cfg.is_ckks() {
+            match guard(|| self.decode_c(p)) {
+                Ok(v) => close(&v, mc, tol).map(|r| self.ckks_ratio.set(self.ckks_ratio.get().max(r))),
+                Err(e) => Err(format!("decode panicked: {e}")),
+            }
+        } else {
+            match guard(|| self.decode_u(p)) {
+                Ok(v) => {
+                    if v[..] == mu[..] {
+                        Ok(())
+                    } else {
+                        Err(format!("slots {:?} vs expected {:?}", v, mu))
+                    }
+                }
+                Err(e) => Err(format!("decode panicked: {e}")),
+            }
+        }
+    }
+}
+
+fn semantic(cfg: &Cfg, fx: &Fixture, outs: &[Out]) -> Sem {
+    let mut s = Sem { fails: vec![], observations: vec![], steps: 0 };
+    let n = cfg.parties as f64;
+    let deg = cfg.spec.n as f64;
+    let ctx = fx.ctx.clone();
+    let dec_sum = match guard(|| Decryptor::new(ctx.clone(), fx.sk_sum.clone())) {
+        Ok(d) => d,
+        Err(e) => {
+            s.fails.push(mkfail(cfg, "harness:summed-key-rejected", "the component-wise sum of valid secret keys is a valid secret key", e));
+            return s;
+        }
+    };
+    let identical = |s: &mut Sem, what: &str| {
+        for p in 1..outs.len() {
+            s.steps += 1;
+            if outs[p].fp() != outs[0].fp() {
+                s.fails.push(mkfail(cfg, &format!("parties-disagree:{what}"), format!("party {p} derives the same {what} as party 0 (byte-identical)"), "different bytes"));
+                break;
+            }
+        }
+    };
+    match cfg.proto {
+        Proto::PublicKey => {
+            identical(&mut s, "public-key");
+            let Out::Pk(pk) = &outs[0] else { unreachable!() };
+            let enc = Encryptor::new(ctx.clone()).set_public_key(pk.clone());
+            let tol = fx.tol(fx.fresh_bound(0) + 1.0, 1.0, fx.scale);
+            let (au, ac) = (alphabet_u(fx.t.max(2), fx.nslots), alphabet_c(fx.nslots));
+            for k in 0..3 {
+                fx.reseed("sem-pk", 0, k);
+                let plain = fx.plain_of(cfg, &au[k], &ac[k]);
+                s.steps += 1;
+                match guard(|| {
+                    let ct = enc.encrypt_new(&plain);
+                    fx.note_budget(cfg, &dec_sum, &ct);
+                    dec_sum.decrypt_new(&ct)
+                }) {
+                    Ok(p) => {
+                        if let Err(e) = fx.cmp_plain(cfg, &p, &au[k], &ac[k], tol) {
+                            s.fails.push(mkfail(cfg, "semantic:collective-public-key-does-not-match-summed-secret-key", "an encryption under the collective public key decrypts under the sum of the parties' secret keys", e));
+                        }
+                    }
+                    Err(e) => s.fails.push(mkfail(cfg, &format!("semantic:collective-public-key-unusable:{}", panic_class(&e)), "Encryptor/Decryptor accept the collective key", e)),
+                }
+            }
+        }
+        Proto::RelinKeys => {
+            identical(&mut s, "relin-keys");
+            let Out::Rlk(rlk) = &outs[0] else { unreachable!() };
+            let enc = Encryptor::new(ctx.clone()).set_public_key(fx.pk_sum.clone());
+            let ev = Evaluator::new(ctx.clone());
+            let (au, ac) = (alphabet_u(fx.t.max(2), fx.nslots), alphabet_c(fx.nslots));
+            // worst-case coefficient noise of the product and of the key switch (see module report)
+            let v = fx.fresh_bound(0) + 2.0 * deg * n * E_MAX / 1e6; // the divided encryption noise is far below 1
+            let mmax = fx.scale * 4.0 * 2f64.sqrt();
+            let e_rlk = 2.0 * n * n * deg * E_MAX + 2.0 * n * E_MAX;
+            let k = (cfg.spec.q.len() - 1) as f64;
+            let b_ks = k * deg * e_rlk + (1.0 + deg * n) / 2.0;
+            let tol = fx.tol(2.0 * deg * mmax * v + deg * v * v + b_ks, 0.0, fx.scale * fx.scale) + fx.tol(0.0, 2.0 * mmax * deg, fx.scale * fx.scale);
+            for (a, b) in [(2usize, 2usize), (2, 1), (1, 1), (0, 2)] {
+                fx.reseed("sem-rlk", a, b);
+                let (pa, pb) = (fx.plain_of(cfg, &au[a], &ac[a]), fx.plain_of(cfg, &au[b], &ac[b]));
+                let eu: Vec<u64> = (0..fx.nslots).map(|i| ((au[a][i] as u128 * au[b][i] as u128) % fx.t.max(2) as u128) as u64).collect();
+                let ecx: Vec<C64> = (0..fx.nslots).map(|i| ac[a][i] * ac[b][i]).collect();
+                s.steps += 1;
+                let prod = match guard(|| ev.multiply_new(&enc.encrypt_new(&pa), &enc.encrypt_new(&pb))) {
+                    Ok(p) => p,
+                    Err(e) => {
+                        s.observations.push(format!("{}: control multiplication panicked ({}), relinearisation not judged", cfg.shape(), panic_class(&e)));
+                        continue;
+                    }
+                };
+                // control: the 3-term product must decrypt under the summed key, otherwise the parameter set cannot carry the check
+                let ctrl = guard(|| dec_sum.decrypt_new(&prod)).map_err(|e| e.to_string()).and_then(|p| fx.cmp_plain(cfg, &p, &eu, &ecx, tol));
+                if let Err(e) = ctrl {
+                    s.observations.push(format!("{} {}: unrelinearised control product does not decrypt ({e}); relinearisation not judged for this pair", cfg.shape(), cfg.spec.label()));
+                    continue;
+                }
+                match guard(|| {
+                    let ct = ev.relinearize_new(&prod, rlk);
+                    fx.note_budget(cfg, &dec_sum, &ct);
+                    dec_sum.decrypt_new(&ct)
+                }) {
+                    Ok(p) => {
+                        if let Err(e) = fx.cmp_plain(cfg, &p, &eu, &ecx, tol) {
+                            s.fails.push(mkfail(cfg, "semantic:collective-relin-key-wrong", "a product relinearised with the collective key decrypts to the product under the summed secret key", e));
+                        }
+                    }
+                    Err(e) => s.fails.push(mkfail(cfg, &format!("semantic:collective-relin-key-unusable:{}", panic_class(&e)), "Evaluator::relinearize accepts the collective key", e)),
+                }
+            }
+        }
+        Proto::RevealSk => {
+            for (p, o) in outs.iter().enumerate() {
+                let Out::Sk(sk) = o else { unreachable!() };
+                s.steps += 1;
+                if sk.data() != fx.sk_sum.data() {
+                    s.fails.push(mkfail(cfg, "semantic:revealed-key-is-not-the-sum", format!("party {p} reveals the component-wise sum of the parties' keys"), "different residues"));
+                    break;
+                }
+            }
+        }
+        Proto::Decrypt => {
+            let tol = fx.tol(fx.fresh_bound(cfg.level) + n * E_MAX, 1.0, fx.scale);
+            for (p, o) in outs.iter().enumerate() {
+                let Out::Pt(pt) = o else { unreachable!() };
+                s.steps += 1;
+                if let Err(e) = fx.cmp_plain(cfg, pt, &fx.msg_u, &fx.msg_c, tol) {
+                    s.fails.push(mkfail(cfg, "semantic:collective-decryption-wrong", format!("party {p} obtains the encrypted plaintext"), e));
+                    break;
+                }
+            }
+        }
+        Proto::KeySwitch | Proto::PubKeySwitch => {
+            let (target_sk, bound, what) = if cfg.proto == Proto::KeySwitch {
+                (fx.new_sk_sum.clone().unwrap(), fx.fresh_bound(cfg.level) + n * E_MAX, "semantic:key-switch-output-does-not-decrypt-under-target-key")
+            } else {
+                (fx.target.as_ref().unwrap().1.clone(), fx.fresh_bound(cfg.level) + n * (E_MAX + 2.0 * deg * E_MAX), "semantic:public-key-switch-output-does-not-decrypt-under-target-key")
+            };
+            let tol = fx.tol(bound, 1.0, fx.scale);
+            let dec_t = Decryptor::new(ctx.clone(), target_sk);
+            for (p, o) in outs.iter().enumerate() {
+                let Out::Ct(ct) = o else { unreachable!() };
+                s.steps += 1;
+                fx.note_budget(cfg, &dec_t, ct);
+                match guard(|| dec_t.decrypt_new(ct)) {
+                    Ok(pt) => {
+                        if let Err(e) = fx.cmp_plain(cfg, &pt, &fx.msg_u, &fx.msg_c, tol) {
+                            s.fails.push(mkfail(cfg, what, format!("party {p}'s output decrypts to the plaintext under the target key"), e));
+                            break;
+                        }
+                    }
+                    Err(e) => {
+                        s.fails.push(mkfail(cfg, &format!("{what}:panic:{}", panic_class(&e)), format!("party {p}'s output is a valid ciphertext"), e));
+                        break;
+                    }
+                }
+            }
+            // under the OLD key the output must no longer be the plaintext when the keys differ: not demanded by the statement, not checked
+        }
+        Proto::CipherToShares => {
+            s.steps += 1;
+            if cfg.is_ckks() {
+                let mut sum = vec![C64::new(0.0, 0.0); fx.nslots];
+                for o in outs {
+                    let Out::ShC(v) = o else { unreachable!() };
+                    for k in 0..fx.nslots {
+                        sum[k] += v.get(k).copied().unwrap_or(C64::new(f64::NAN, 0.0));
+                    }
+                }
+                let tol = fx.tol(fx.fresh_bound(cfg.level) + n * E_MAX, 1.0 + n, fx.scale);
+                let r = close(&sum, &fx.msg_c, tol);
+                if let Ok(r) = &r {
+                    fx.ckks_ratio.set(fx.ckks_ratio.get().max(*r));
+                }
+                if let Err(e) = r {
+                    s.fails.push(mkfail(cfg, "semantic:shares-do-not-sum-to-plaintext", "the parties' shares add up to the encrypted plaintext", e));
+                }
+            } else {
+                let mut sum = vec![0u64; fx.nslots];
+                let mut bad = None;
+                for (p, o) in outs.iter().enumerate() {
+                    let Out::ShU(v) = o else { unreachable!() };
+                    if v.len() != fx.nslots || v.iter().any(|&x| x >= fx.t) {
+                        bad = Some(format!("party {p} share {:?}", v));
+                    }
+                    for k in 0..fx.nslots.min(v.len()) {
+                        sum[k] = (sum[k] + v[k] % fx.t) % fx.t;
+                    }
+                }
+                if let Some(b) = bad {
+                    s.fails.push(mkfail(cfg, "semantic:share-not-a-vector-mod-t", "every share is a length-N vector of residues mod t", b));
+                } else if sum != fx.msg_u {
+                    s.fails.push(mkfail(cfg, "semantic:shares-do-not-sum-to-plaintext", "the parties' shares add up (mod t) to the encrypted plaintext", format!("sum {:?} vs plaintext {:?}", sum, fx.msg_u)));
+                }
+            }
+        }
+        Proto::SharesToCipher => {
+            let tol = fx.tol(n * E_MAX, n, fx.scale);
+            let mut eu = vec![0u64; fx.nslots];
+            let mut ec = vec![C64::new(0.0, 0.0); fx.nslots];
+            for p in 0..cfg.parties {
+                for k in 0..fx.nslots {
+                    if cfg.is_ckks() {
+                        ec[k] += fx.shares_c[p][k];
+                    } else {
+                        eu[k] = (eu[k] + fx.shares_u[p][k]) % fx.t;
+                    }
+                }
+            }
+            for (p, o) in outs.iter().enumerate() {
+                let Out::Ct(ct) = o else { unreachable!() };
+                let mut ct = ct.clone();
+                if cfg.is_ckks() {
+                    ct.set_scale(fx.scale);
+                }
+                // what the code implies for a non-aggregating party: sum + share_p - share_0
+                let (mut xu, mut xc) = (eu.clone(), ec.clone());
+                if p != 0 {
+                    for k in 0..fx.nslots {
+                        if cfg.is_ckks() {
+                            xc[k] += fx.shares_c[p][k] - fx.shares_c[0][k];
+                        } else {
+                            xu[k] = (xu[k] + fx.shares_u[p][k] + fx.t - fx.shares_u[0][k]) % fx.t;
+                        }
+                    }
+                }
+                s.steps += 1;
+                if p == 0 {
+                    fx.note_budget(cfg, &dec_sum, &ct);
+                }
+                let res = guard(|| dec_sum.decrypt_new(&ct)).map_err(|e| format!("decrypt panicked: {e}"));
+                if p == 0 {
+                    match res.and_then(|pt| fx.cmp_plain(cfg, &pt, &eu, &ec, tol)) {
+                        Ok(()) => {}
+                        Err(e) => s.fails.push(mkfail(cfg, "semantic:shares-to-cipher-wrong-at-aggregator", "party 0's ciphertext decrypts (summed key) to the sum of the shares", e)),
+                    }
+                } else {
+                    let sum_ok = res.clone().and_then(|pt| fx.cmp_plain(cfg, &pt, &eu, &ec, tol)).is_ok();
+                    let implied_ok = res.and_then(|pt| fx.cmp_plain(cfg, &pt, &xu, &xc, tol * 2.0)).is_ok();
+                    s.observations.push(format!(
+                        "{}: non-aggregating party's output decrypts to the sum of shares: {}; to sum + own share - share_0 (what the code implies): {} [not judged]",
+                        cfg.shape(),
+                        sum_ok,
+                        implied_ok
+                    ));
+                }
+            }
+        }
+    }
+    s
+}
+
+// ---------------------------------------------------------------------------------------------
+// exploration of one configuration
+// ---------------------------------------------------------------------------------------------
+
+#[derive(Clone, Copy, PartialEq, Eq, Debug)]
+pub enum Mode {
+    /// every subset of the message pairs, breadth first
+    Lattice,
+    /// covering family of orders (non-exhaustive)
+    Cover,
+}
+
+#[derive(Default)]
+struct Acc {
+    states: u64,
+    transitions: u64,
+    histories: u64,
+    receives: u64,
+    sem_steps: u64,
+    nontrivial: Vec<u64>,
+    outcomes: HashSet<u64>,
+    fails: BTreeMap<String, (Value, Fail, u64)>,
+    refusal_classes: BTreeSet<String>,
+    observations: BTreeSet<String>,
+    skipped: Option<String>,
+    capped: bool,
+    max_leftover: usize,
+    ckks_ratio: f64,
+    min_budget: Option<i64>,
+}
+
+impl Acc {
+    fn add_fail(&mut self, case: impl FnOnce() -> Value, f: Fail) {
+        if let Some(e) = self.fails.get_mut(&f.key) {
+            e.2 += 1;
+        } else {
+            self.fails.insert(f.key.clone(), (case(), f, 1));
+        }
+    }
+    fn merge(&mut self, o: Acc) {
+        self.states += o.states;
+        self.transitions += o.transitions;
+        self.histories += o.histories;
+        self.receives += o.receives;
+        self.sem_steps += o.sem_steps;
+        self.nontrivial.extend(o.nontrivial);
+        self.outcomes.extend(o.outcomes);
+        for (k, (c, f, n)) in o.fails {
+            if let Some(e) = self.fails.get_mut(&k) {
+                e.2 += n;
+            } else {
+                self.fails.insert(k, (c, f, n));
+            }
+        }
+        self.refusal_classes.extend(o.refusal_classes);
+        self.observations.extend(o.observations);
+        self.capped |= o.capped;
+        self.max_leftover = self.max_leftover.max(o.max_leftover);
+        self.ckks_ratio = self.ckks_ratio.max(o.ckks_ratio);
+        self.min_budget = match (self.min_budget, o.min_budget) {
+            (Some(a), Some(b)) => Some(a.min(b)),
+            (a, b) => a.or(b),
+        };
+    }
+    fn absorb(&mut self, cfg: &Cfg, fx: &Fixture, hist: &[Vec<usize>], j: Judged, canonical_full: bool) {
+        self.histories += 1;
+        self.receives += j.receives;
+        self.outcomes.insert(j.class);
+        self.max_leftover = self.max_leftover.max(j.leftover);
+        if !canonical_full {
+            self.nontrivial.push(h64(&(cfg.tag(), hist)));
+        }
+        for c in j.refusal_classes {
+            self.refusal_classes.insert(c);
+        }
+        for f in j.fails {
+            self.add_fail(|| case_json(cfg, &fx.edges, hist), f);
+        }
+    }
+}
+
+/// history reaching (round, canon(mask)++extra) with all earlier rounds canonical and, if `complete`, canonical completion to the end
+fn make_hist(fx: &Fixture, rounds_total: usize, round: usize, mask: u64, extra: Option<usize>, complete: bool) -> Vec<Vec<usize>> {
+    let m = fx.edges.len();
+    let mut h: Vec<Vec<usize>> = (0..round).map(|_| (0..m).collect()).collect();
+    let mut cur = bits(mask);
+    let mut have = mask;
+    if let Some(e) = extra {
+        cur.push(e);
+        have |= 1u64 << e;
+    }
+    if complete {
+        for e in 0..m {
+            if have >> e & 1 == 0 {
+                cur.push(e);
+            }
+        }
+        h.push(cur);
+        for _ in round + 1..rounds_total {
+            h.push((0..m).collect());
+        }
+    } else {
+        h.push(cur);
+    }
+    h
+}
+
+/// state check + all outgoing edges of one state; returns the successor masks
+fn process_state(cfg: &Cfg, fx: &Fixture, refs: &Refs, round: usize, mask: u64, acc: &mut Acc) -> Vec<u64> {
+    let m = fx.edges.len();
+    let rounds = cfg.proto.rounds();
+    let fullmask = if m == 64 { u64::MAX } else { (1u64 << m) - 1 };
+    acc.states += 1;
+    // (a) canonical materialisation, every party probed
+    let h = make_hist(fx, rounds, round, mask, None, false);
+    let canonical_full = mask == fullmask && round + 1 == rounds;
+    let j = judge_history(cfg, fx, refs, &h);
+    acc.absorb(cfg, fx, &h, j, canonical_full);
+    let mut succ = vec![];
+    let top = if mask == 0 { None } else { Some(63 - mask.leading_zeros() as usize) };
+    for e in 0..m {
+        if mask >> e & 1 == 1 {
+            continue;
+        }
+        acc.transitions += 1;
+        let m2 = mask | 1u64 << e;
+        succ.push(m2);
+        // (b1) the same delivered set reached through a non-canonical history, probed at once
+        if top.map_or(false, |t| e < t) {
+            let h = make_hist(fx, rounds, round, mask, Some(e), false);
+            let j = judge_history(cfg, fx, refs, &h);
+            acc.absorb(cfg, fx, &h, j, false);
+        }
+        // (b2) through this edge to the end, canonical completion
+        let h = make_hist(fx, rounds, round, mask, Some(e), true);
+        let is_canon = h.iter().all(|r| r.windows(2).all(|w| w[0] < w[1]));
+        if !is_canon {
+            let j = judge_history(cfg, fx, refs, &h);
+            acc.absorb(cfg, fx, &h, j, false);
+        }
+    }
+    succ
+}
+
+fn explore_cfg(cfg: &Cfg, seed: u64, mode: Mode, inner_threads: usize, deadline: Instant) -> Acc {
+    let mut acc = Acc::default();
+    let fx = match guard(|| Fixture::build(cfg, seed)) {
+        Ok(Ok(f)) => f,
+        Ok(Err(e)) => {
+            acc.skipped = Some(format!("fixture: {e}"));
+            return acc;
+        }
+        Err(e) => {
+            acc.add_fail(|| json!({"cfg": cfg, "hist": [[]]}), mkfail(cfg, &format!("fixture:panic:{}", panic_class(&e)), "keys and input ciphertext of the configuration can be produced", e));
+            return acc;
+        }
+    };
+    let refs = match reference(cfg, &fx) {
+        Ok(r) => r,
+        Err(RefErr::Skip(why)) => {
+            acc.observations.insert(why.clone());
+            acc.skipped = Some(why);
+            return acc;
+        }
+        Err(RefErr::Fail(c, f)) => {
+            acc.add_fail(|| c, f);
+            return acc;
+        }
+    };
+    // semantic oracles on the reference outputs (all other histories must reproduce these bytes)
+    let sem = semantic(cfg, &fx, &refs.outs);
+    acc.sem_steps += sem.steps;
+    let full = canonical(&fx, cfg.proto.rounds());
+    for f in sem.fails {
+        acc.add_fail(|| case_json(cfg, &fx.edges, &full), f);
+    }
+    acc.observations.extend(sem.observations);
+    acc.ckks_ratio = fx.ckks_ratio.get();
+    if fx.min_budget.get() != i64::MAX {
+        acc.min_budget = Some(fx.min_budget.get());
+    }
+    let m = fx.edges.len();
+    let rounds = cfg.proto.rounds();
+    match mode {
+        Mode::Lattice => {
+            for round in 0..rounds {
+                let mut visited: HashSet<u64> = HashSet::new();
+                visited.insert(0);
+                let mut frontier = vec![0u64];
+                while !frontier.is_empty() {
+                    if Instant::now() > deadline {
+                        acc.capped = true;
+                        return acc;
+                    }
+                    let mut next = vec![];
+                    if inner_threads <= 1 || frontier.len() < 8 {
+                        for &mask in &frontier {
+                            for s in process_state(cfg, &fx, &refs, round, mask, &mut acc) {
+                                if visited.insert(s) {
+                                    next.push(s);
+                                }
+                            }
+                            if Instant::now() > deadline {
+                                acc.capped = true;
+                                return acc;
+                            }
+                        }
+                    } else {
+                        let idx = AtomicUsize::new(0);
+                        let results: Mutex<Vec<(Acc, Vec<u64>)>> = Mutex::new(vec![]);
+                        std::thread::scope(|sc| {
+                            for _ in 0..inner_threads {
+                                std::thread::Builder::new()
+                                    .stack_size(64 << 20)
+                                    .spawn_scoped(sc, || {
+                                        heathcliff_thread_init();
+                                        let mut a = Acc::default();
+                                        let mut succ = vec![];
+                                        let fxl = match guard(|| Fixture::build(cfg, seed)) {
+                                            Ok(Ok(f)) => f,
+                                            _ => return,
+                                        };
+                                        loop {
+                                            let i = idx.fetch_add(1, Ordering::SeqCst);
+                                            if i >= frontier.len() || Instant::now() > deadline {
+                                                break;
+                                            }
+                                            succ.extend(process_state(cfg, &fxl, &refs, round, frontier[i], &mut a));
+                                        }
+                                        results.lock().unwrap().push((a, succ));
+                                    })
+                                    .expect("spawn");
+                            }
+                        });
+                        let done = idx.load(Ordering::SeqCst);
+                        for (a, succ) in results.into_inner().unwrap() {
+                            acc.merge(a);
+                            for s in succ {
+                                if visited.insert(s) {
+                                    next.push(s);
+                                }
+                            }
+                        }
+                        if done < frontier.len() + inner_threads && Instant::now() > deadline {
+                            acc.capped = true;
+                            return acc;
+                        }
+                    }
+                    next.sort_unstable();
+                    frontier = next;
+                }
+                debug_assert!(visited.len() as u128 == 1u128 << m);
+            }
+        }
+        Mode::Cover => {
+            for round in 0..rounds {
+                let mut seen_states: HashSet<u64> = HashSet::new();
+                let mut orders: Vec<Vec<usize>> = vec![];
+                orders.push((0..m).collect());
+                orders.push((0..m).rev().collect());
+                for last in 0..m {
+                    let mut o: Vec<usize> = (0..m).filter(|&e| e != last).collect();
+                    o.push(last);
+                    orders.push(o);
+                    let mut o: Vec<usize> = vec![last];
+                    o.extend((0..m).filter(|&e| e != last));
+                    orders.push(o);
+                }
+                for i in 0..m.saturating_sub(1) {
+                    let mut o: Vec<usize> = (0..m).collect();
+                    o.swap(i, i + 1);
+                    orders.push(o);
+                }
+                let prefix: Vec<Vec<usize>> = (0..round).map(|_| (0..m).collect()).collect();
+                let suffix: Vec<Vec<usize>> = (round + 1..rounds).map(|_| (0..m).collect()).collect();
+                let mut done: HashSet<Vec<usize>> = HashSet::new();
+                for (oi, o) in orders.iter().enumerate() {
+                    if Instant::now() > deadline {
+                        acc.capped = true;
+                        return acc;
+                    }
+                    if !done.insert(o.clone()) {
+                        continue;
+                    }
+                    // complete run in this order
+                    let mut h = prefix.clone();
+                    h.push(o.clone());
+                    h.extend(suffix.clone());
+                    let is_canon = oi == 0;
+                    let j = judge_history(cfg, &fx, &refs, &h);
+                    acc.absorb(cfg, &fx, &h, j, is_canon && round + 1 == rounds);
+                    acc.transitions += m as u64;
+                    // probed prefixes: all of them for the canonical and the reverse order, the one-before-last state for the others
+                    let cuts: Vec<usize> = if oi < 2 { (0..m).collect() } else { vec![m - 1] };
+                    for c in cuts {
+                        let mut h = prefix.clone();
+                        h.push(o[..c].to_vec());
+                        let j = judge_history(cfg, &fx, &refs, &h);
+                        acc.absorb(cfg, &fx, &h, j, false);
+                    }
+                    let mut mask = 0u64;
+                    seen_states.insert(0);
+                    for &e in o {
+                        mask |= 1u64 << e;
+                        seen_states.insert(mask);
+                    }
+                }
+                acc.states += seen_states.len() as u64;
+            }
+        }
+    }
+    acc
+}
+
+// ---------------------------------------------------------------------------------------------
+// section
+// ---------------------------------------------------------------------------------------------
+
+pub struct E5Section {
+    pub name: String,
+    pub bound: String,
+    pub cfgs: Vec<Cfg>,
+    pub mode: Mode,
+    pub seed: u64,
+    /// true: configurations one after the other, each lattice layer spread over the worker threads
+    pub inner_parallel: bool,
+    pub budget_share: f64,
+}
+
+fn replay_case(case: &Value, seed: u64) -> Result<CaseOut, String> {
+    let cfg: Cfg = serde_json::from_value(case["cfg"].clone()).map_err(|e| format!("cannot parse cfg: {e}"))?;
+    let pairs: Vec<Vec<(usize, usize)>> = serde_json::from_value(case["hist"].clone()).map_err(|e| format!("cannot parse hist: {e}"))?;
+    let fx = match guard(|| Fixture::build(&cfg, seed)) {
+        Ok(Ok(f)) => f,
+        Ok(Err(e)) => return Ok(CaseOut::skip(&e)),
+        Err(e) => return Ok(CaseOut::fail(format!("{}:fixture:panic:{}", cfg.shape(), panic_class(&e)), "fixture can be built", e)),
+    };
+    let mut hist: Vec<Vec<usize>> = vec![];
+    for r in &pairs {
+        let mut row = vec![];
+        for pr in r {
+            row.push(fx.edges.iter().position(|e| e == pr).ok_or_else(|| format!("({},{}) is not a message of this protocol", pr.0, pr.1))?);
+        }
+        hist.push(row);
+    }
+    if hist.is_empty() {
+        hist.push(vec![]);
+    }
+    let refs = match reference(&cfg, &fx) {
+        Ok(r) => r,
+        Err(RefErr::Skip(w)) => return Ok(CaseOut::skip(&w)),
+        Err(RefErr::Fail(_, f)) => return Ok(CaseOut::fail(f.key, f.expected, f.observed)),
+    };
+    let full = canonical(&fx, cfg.proto.rounds());
+    if hist == full {
+        let sem = semantic(&cfg, &fx, &refs.outs);
+        if let Some(f) = sem.fails.into_iter().next() {
+            return Ok(CaseOut::fail(f.key, f.expected, f.observed));
+        }
+    }
+    let j = judge_history(&cfg, &fx, &refs, &hist);
+    if let Some(f) = j.fails.into_iter().next() {
+        return Ok(CaseOut::fail(f.key, f.expected, f.observed));
+    }
+    Ok(CaseOut::pass(true, j.class, 1))
+}
+
+impl AnySection for E5Section {
+    fn name(&self) -> String {
+        self.name.clone()
+    }
+
+    fn replay(&self, case: &Value) -> Result<CaseOut, String> {
+        heathcliff_thread_init();
+        match guard(|| replay_case(case, self.seed)) {
+            Ok(r) => r,
+            Err(p) => Ok(CaseOut::fail(format!("unexpected-panic:{}", panic_class(&p)), "no panic outside the guarded subject calls", p)),
+        }
+    }
+
+    fn run(self: Box<Self>, rep: &Arc<Report>) {
+        let t0 = Instant::now();
+        let deadline = Instant::now() + rep.cfg.remaining().mul_f64(self.budget_share.clamp(0.01, 1.0));
+        let threads = rep.cfg.threads.max(1);
+        let seed = self.seed;
+        let mode = self.mode;
+        // determinism self-test: reference observations of the first configurations, twice, in fresh threads
+        {
+            let head: Vec<Cfg> = self.cfgs.iter().take(3).cloned().collect();
+            let once = |cfgs: Vec<Cfg>| {
+                std::thread::Builder::new()
+                    .stack_size(64 << 20)
+                    .spawn(move || {
+                        heathcliff_thread_init();
+                        cfgs.iter()
+                            .map(|c| {
+                                guard(|| match Fixture::build(c, seed) {
+                                    Ok(fx) => match reference(c, &fx) {
+                                        Ok(r) => h64(&r.obs),
+                                        Err(RefErr::Skip(_)) => 1,
+                                        Err(RefErr::Fail(_, f)) => h64(&f.key),
+                                    },
+                                    Err(_) => 2,
+                                })
+                                .unwrap_or(3)
+                            })
+                            .collect::<Vec<u64>>()
+                    })
+                    .expect("spawn")
+                    .join()
+                    .unwrap_or_default()
+            };
+            if once(head.clone()) != once(head) {
+                rep.machinery_error(format!("section {}: determinism self-test failed (same configurations, different reference observations)", self.name));
+            }
+        }
+        let total = Mutex::new(Acc::default());
+        let per_proto: Mutex<BTreeMap<String, (u64, u64, u64)>> = Mutex::new(BTreeMap::new());
+        let ncfg = AtomicUsize::new(0);
+        let nskip = AtomicUsize::new(0);
+        let flush = |cfg: &Cfg, a: Acc| {
+            ncfg.fetch_add(1, Ordering::SeqCst);
+            if let Some(w) = &a.skipped {
+                nskip.fetch_add(1, Ordering::SeqCst);
+                rep.skipped.fetch_add(1, Ordering::Relaxed);
+                rep.observe(format!("skipped (outside the domain): {w}"));
+            }
+            {
+                let mut pp = per_proto.lock().unwrap();
+                let e = pp.entry(format!("{}/{:?}", cfg.proto.name(), cfg.spec.scheme)).or_insert((0, 0, 0));
+                e.0 += a.states;
+                e.1 += a.transitions;
+                e.2 += a.histories;
+            }
+            total.lock().unwrap().merge(a);
+        };
+        if self.inner_parallel {
+            for cfg in &self.cfgs {
+                if Instant::now() > deadline {
+                    total.lock().unwrap().capped = true;
+                    break;
+                }
+                let a = match guard(|| explore_cfg(cfg, seed, mode, threads, deadline)) {
+                    Ok(a) => a,
+                    Err(p) => {
+                        let mut a = Acc::default();
+                        a.add_fail(|| json!({"cfg": cfg, "hist": [[]]}), Fail { key: format!("unexpected-panic:{}", panic_class(&p)), expected: "no panic outside the guarded subject calls".into(), observed: p });
+                        a
+                    }
+                };
+                flush(cfg, a);
+            }
+        } else {
+            let idx = AtomicUsize::new(0);
+            std::thread::scope(|sc| {
+                for _ in 0..threads {
+                    std::thread::Builder::new()
+                        .stack_size(64 << 20)
+                        .spawn_scoped(sc, || {
+                            heathcliff_thread_init();
+                            loop {
+                                let i = idx.fetch_add(1, Ordering::SeqCst);
+                                if i >= self.cfgs.len() {
+                                    break;
+                                }
+                                if Instant::now() > deadline {
+                                    total.lock().unwrap().capped = true;
+                                    break;
+                                }
+                                let cfg = &self.cfgs[i];
+                                let a = match guard(|| explore_cfg(cfg, seed, mode, 1, deadline)) {
+                                    Ok(a) => a,
+                                    Err(p) => {
+                                        let mut a = Acc::default();
+                                        a.add_fail(
+                                            || json!({"cfg": cfg, "hist": [[]]}),
+                                            Fail { key: format!("unexpected-panic:{}", panic_class(&p)), expected: "no panic outside the guarded subject calls".into(), observed: p },
+                                        );
+                                        a
+                                    }
+                                };
+                                flush(cfg, a);
+                            }
+                        })
+                        .expect("spawn");
+                }
+            });
+        }
+        let acc = total.into_inner().unwrap();
+        let done = ncfg.load(Ordering::SeqCst) as u64;
+        let skipped = nskip.load(Ordering::SeqCst) as u64;
+        let exhaustive_run = !acc.capped && done == self.cfgs.len() as u64;
+        for (_, (case, f, n)) in acc.fails.iter() {
+            for _ in 0..*n {
+                rep.add_violation(&self.name, case.clone(), f.clone());
+            }
+        }
+        for h in &acc.nontrivial {
+            rep.mark_nontrivial(*h);
+        }
+        for o in &acc.outcomes {
+            rep.mark_outcome(*o);
+        }
+        for o in &acc.observations {
+            rep.observe(o.clone());
+        }
+        if !acc.refusal_classes.is_empty() {
+            rep.observe(format!("{}: refusal classes of incomplete inboxes: {:?}", self.name, acc.refusal_classes));
+        }
+        if acc.ckks_ratio > 0.0 {
+            rep.observe(format!("{}: largest |error|/tolerance over all passing CKKS comparisons = {:.3}", self.name, acc.ckks_ratio));
+        }
+        if let Some(b) = acc.min_budget {
+            rep.observe(format!("{}: smallest invariant noise budget of a judged BFV/BGV ciphertext = {} bits", self.name, b));
+        }
+        if acc.max_leftover > 0 {
+            rep.observe(format!("{}: a receive() left up to {} bytes of its message unread", self.name, acc.max_leftover));
+        }
+        rep.evaluations.fetch_add(acc.histories, Ordering::Relaxed);
+        rep.steps.fetch_add(acc.histories + acc.sem_steps, Ordering::Relaxed);
+        rep.states.fetch_add(acc.states, Ordering::Relaxed);
+        rep.transitions.fetch_add(acc.transitions, Ordering::Relaxed);
+        if let Some(c) = self.cfgs.first() {
+            rep.sample(json!({"section": self.name, "first_cfg": c}));
+        }
+        if let Some(c) = self.cfgs.last() {
+            rep.sample(json!({"section": self.name, "last_cfg": c}));
+        }
+        // the Cover mode is a non-exhaustive family by construction: say so in the bound text, not via the flag of the run
+        let bound = if exhaustive_run { self.bound.clone() } else { format!("{} — CAPPED: only {} of {} configurations were completed", self.bound, done, self.cfgs.len()) };
+        rep.push_section(SectionStat {
+            name: self.name.clone(),
+            engine: "E5".into(),
+            cases: done,
+            nontrivial: acc.nontrivial.len() as u64,
+            skipped,
+            outcomes: acc.outcomes.len() as u64,
+            steps: acc.histories + acc.sem_steps,
+            states: acc.states,
+            transitions: acc.transitions,
+            exhaustive: exhaustive_run,
+            bound,
+            wall_s: t0.elapsed().as_secs_f64(),
+            extra: json!({
+                "histories_replayed": acc.histories,
+                "receive_calls": acc.receives,
+                "semantic_checks": acc.sem_steps,
+                "per_protocol_scheme(states,transitions,histories)": per_proto.into_inner().unwrap(),
+                "refusal_classes": acc.refusal_classes,
+                "mode": format!("{:?}", self.mode),
+            }),
+        });
+    }
+}
+
+// ---------------------------------------------------------------------------------------------
+// configurations per tier
+// ---------------------------------------------------------------------------------------------
+
+/// N = 8; the special (last) prime is the largest so that key-switching noise is not amplified
+fn param_sets(scheme: Scheme) -> Vec<ParamSpec> {
+    let n = 8;
+    [vec![30usize, 40], vec![30, 35, 40], vec![30, 31, 35, 40]].iter().map(|b| ParamSpec::new(scheme, n, chain(n, b), 17)).collect()
+}
+
+fn cfgs_for(n: usize, cfg: &RunCfg, reduced: bool) -> Vec<Cfg> {
+    let mut v = vec![];
+    let th = cfg.thorough();
+    for proto in Proto::all() {
+        for scheme in Scheme::all() {
+            let sets = param_sets(scheme);
+            for (si, spec) in sets.iter().enumerate() {
+                // reduced (big lattices / covering families): the 3-prime set only
+                if reduced && si != 1 {
+                    continue;
+                }
+                let msgs = msgs_for(scheme, 17, 8);
+                let msg_ids: Vec<usize> = if proto.uses_message() && !reduced { vec![2, 0, 1] } else { vec![2] };
+                let max_level = spec.q.len() - 2;
+                for &mi in &msg_ids {
+                    let mut levels = vec![0usize];
+                    if proto.has_cipher_input() && max_level > 0 && mi == 2 {
+                        levels.push(max_level);
+                    }
+                    for &level in &levels {
+                        let mut modes = vec![ShareMode::Sampler];
+                        if proto == Proto::CipherToShares && scheme != Scheme::CKKS && mi == 2 && level == 0 && !reduced {
+                            modes.push(ShareMode::FixedZero);
+                            modes.push(ShareMode::FixedMax);
+                        }
+                        for &shares in &modes {
+                            let mut scripts = vec![(Noise::Real, Noise::Real)];
+                            if th && !reduced && mi == 2 && level == 0 && shares == ShareMode::Sampler {
+                                scripts.push((Noise::Real, Noise::AllMax));
+                                scripts.push((Noise::Real, Noise::Alt));
+                                scripts.push((Noise::AllMax, Noise::AllMax));
+                            }
+                            for &(tern, err) in &scripts {
+                                v.push(Cfg { proto, spec: spec.clone(), parties: n, msg: msgs[mi].clone(), level, shares, err, tern });
+                            }
+                        }
+                    }
+                }
+            }
+        }
+    }
+    v
+}
+
+pub fn sections(cfg: &RunCfg) -> Vec<Box<dyn AnySection>> {
+    let seed = cfg.seed;
+    let th = cfg.thorough();
+    let common = "8 protocols (public key, relin keys 2 rounds, secret-key revelation, decrypt, key switch, public-key switch, cipher->shares, shares->cipher) x {BFV,BGV,CKKS} x N=8";
+    let mut v: Vec<Box<dyn AnySection>> = vec![];
+    let lattice = |n: usize, reduced: bool, inner: bool, share: f64| -> Box<dyn AnySection> {
+        let m = n * (n - 1);
+        Box::new(E5Section {
+            name: format!("lattice_n{n}"),
+            bound: format!(
+                "n={n}: ALL 2^{m} delivered-sets per round ({} for cipher->shares), every state probed at every party, every lattice edge executed; {common}; {}",
+                format!("2^{}", n - 1),
+                if reduced { "primes [30,35,40] bits, dense plaintext, first level + last level" } else { "primes [30,40],[30,35,40],[30,31,35,40] bits, t=17; plaintexts {0, all t-1, dense}; first and last level; share modes {library sampler, all-0, all-(t-1)}; thorough adds (ternary,error) scripts {(real,+21),(real,alternating),(all +1,+21)}" }
+            ),
+            cfgs: cfgs_for(n, cfg, reduced),
+            mode: Mode::Lattice,
+            seed,
+            inner_parallel: inner,
+            budget_share: share,
+        })
+    };
+    let cover = |n: usize, share: f64| -> Box<dyn AnySection> {
+        Box::new(E5Section {
+            name: format!("cover_n{n}"),
+            bound: format!(
+                "n={n}: NON-EXHAUSTIVE covering family of delivery orders per round (canonical, reverse, every message last once, every message first once, every adjacent pair of the canonical order swapped), every prefix of the canonical and reverse orders and every all-but-one state probed; {common}; primes [30,35,40] bits, dense plaintext"
+            ),
+            cfgs: cfgs_for(n, cfg, true),
+            mode: Mode::Cover,
+            seed,
+            inner_parallel: false,
+            budget_share: share,
+        })
+    };
+    if th {
+        v.push(lattice(2, false, false, 0.1));
+        v.push(lattice(3, false, false, 0.3));
+        v.push(cover(5, 0.2));
+        v.push(cover(6, 0.3));
+        v.push(lattice(4, true, true, 1.0));
+    } else {
+        v.push(lattice(2, false, false, 0.2));
+        v.push(lattice(3, false, false, 0.7));
+        v.push(cover(5, 0.5));
+        v.push(cover(6, 1.0));
+    }
+    v
 }
